@@ -363,3 +363,59 @@ func waitFor(grace time.Duration, cond func() bool) bool {
 		time.Sleep(200 * time.Microsecond)
 	}
 }
+
+// exchange injects one datagram and returns everything the node wrote in reaction to it (after the
+// quiescence barrier). When wantReply is set and nothing was written at the barrier, the absence is
+// re-examined after a grace period (negative evidence is never trusted at once).
+func (s *Srv) exchange(c *kit.Case, from *net.UDPAddr, data []byte, wantReply bool) ([]OutMsg, bool) {
+	mark := s.C.NumOut()
+	s.C.Inject(from, data)
+	if !s.barrier(c) {
+		return nil, false
+	}
+	outs := outsFrom(s.C, mark)
+	if wantReply && len(outs) == 0 {
+		c.Label("grace-wait")
+		waitFor(2*time.Second, func() bool { return s.C.NumOut() > mark })
+		outs = outsFrom(s.C, mark)
+	}
+	return outs, true
+}
+
+// replyTo picks the datagram among outs addressed to `from` with transaction ID t.
+func replyTo(outs []OutMsg, from *net.UDPAddr, t []byte) (OutMsg, bool) {
+	for _, o := range outs {
+		if o.OK && o.HasT && o.T == string(t) && o.To != nil && o.To.String() == from.String() {
+			return o, true
+		}
+	}
+	return OutMsg{}, false
+}
+
+func wantList(ws []string) BKV {
+	var l []BV
+	for _, w := range ws {
+		l = append(l, bstr(w))
+	}
+	return BKV{K: "want", V: BV{Kind: 'l', L: l}}
+}
+
+func hasStr(l []string, s string) bool {
+	for _, x := range l {
+		if x == s {
+			return true
+		}
+	}
+	return false
+}
+
+// wants computes what a requester asks for under BEP 32: explicit want, else its address family.
+// known=false when an explicit want list names neither n4 nor n6 (left open by the property).
+func wants(want []string, src net.IP) (w4, w6, known bool) {
+	if len(want) != 0 {
+		w4, w6 = hasStr(want, "n4"), hasStr(want, "n6")
+		return w4, w6, w4 || w6
+	}
+	is4 := src.To4() != nil
+	return is4, !is4, true
+}
